@@ -20,7 +20,7 @@ LEVEL = "exploration"
 SHARDS = {"quick": 8, "thorough": 16}
 FLOOR = {"quick": 3000, "thorough": 60000}
 REQUIRED_COUNTERS = ["sequence_requests", "requests_captured", "cfg_with_query_key", "cfg_with_cookie_key", "cfg_case_overlap", "concurrent_requests",
-                     "concurrent_batches_out_of_launch_order"]
+                     "concurrent_batches_out_of_launch_order", "oauth_rotation_requests"]
 RULE = ("every ordered selection of 0-3 plugins out of {Bearer, ApiKey-header, ApiKey-query, ApiKey-cookie, HeadersAuth, "
         "OAuth2, OAuth2+refresh} x header-overlap pattern x caller params/cookies/body presence x bearer_token shortcut; "
         "a case = (plugins, pattern, caller kwargs); non-trivial = >=1 plugin or overlapping header names")
@@ -449,6 +449,59 @@ async def run_concurrent(ctx: Ctx, mods, plugs: tuple[str, ...], pattern_i: int,
         rec.violation("concurrent:default_headers_mutated", feats, case, json.dumps(defaults))
 
 
+async def run_oauth_rotation(ctx: Ctx, mods, script: list, composite: bool) -> None:
+    """A request sequence through ONE OAuth2Auth with a refresh callback that sometimes rotates the token and sometimes
+    declines (returns its argument, '' or None).  Reference model: the plugin keeps the last token it was given; every
+    request carries that token and the callback is consulted with it."""
+    import httpx
+
+    rec = ctx.rec
+    seen: list[httpx.Request] = []
+    calls: list[str] = []
+    step = {"i": 0}
+
+    async def cb(current: str):
+        calls.append(current)
+        act = script[step["i"]]
+        await asyncio.sleep(0)
+        return current if act == "same" else ("" if act == "empty" else (None if act == "none" else act))
+
+    class CapturingClient(httpx.AsyncClient):
+        def __init__(self, *a: Any, **kw: Any) -> None:
+            kw["transport"] = httpx.MockTransport(lambda r: (seen.append(r), httpx.Response(200, json={}))[1])
+            super().__init__(*a, **kw)
+
+    oauth = mods["plugins"].OAuth2Auth("t0", refresh_callback=cb)
+    auth = mods["base"].CompositeAuth(mods["plugins"].ApiKeyAuth("K2", location="query", name="api_key"), oauth) if composite else oauth
+    orig = httpx.AsyncClient
+    httpx.AsyncClient = CapturingClient  # type: ignore[misc]
+    try:
+        t = mods["ht"].HttpxTransport("https://api.test", auth=auth)
+    finally:
+        httpx.AsyncClient = orig  # type: ignore[misc]
+    case = {"oauth_rotation": True, "script": script, "composite": composite}
+    feats = ["oauth_rotation"]
+    rec.case(case, nontrivial=True)
+    current = "t0"
+    for i, act in enumerate(script):
+        step["i"] = i
+        seen.clear()
+        rec.count("oauth_rotation_requests")
+        try:
+            await t.request("GET", "/op1/x")
+        except Exception as e:  # noqa
+            rec.violation(f"oauth:raise:{type(e).__name__}", feats, dict(case, step=i), repr(e))
+            break
+        if len(calls) != i + 1 or calls[-1] != current:
+            rec.violation("oauth:callback_not_given_the_current_token", feats, dict(case, step=i), f"callback calls so far {calls}, current token {current!r}")
+        if act not in ("same", "empty", "none"):
+            current = act
+        got = seen[0].headers.get_list("authorization") if seen else None
+        if got != [f"Bearer {current}"]:
+            rec.violation("oauth:stale_or_wrong_token_sent", feats, dict(case, step=i), f"request {i}: expected Bearer {current}, sent {got}")
+    await t.close()
+
+
 async def run_context_manager(ctx: Ctx, mods) -> None:
     """`async with HttpxTransport(...)`: the same object inside, requests work, the underlying client is closed afterwards;
     an ApiKeyAuth with an unknown location is refused when used, not silently ignored."""
@@ -522,6 +575,12 @@ def run_shard(ctx: Ctx) -> None:
                         await run_sequence(ctx, mods, plugs, pi, shortcut)
         if ctx.shard == 0:
             await run_context_manager(ctx, mods)
+        acts = ["same", "empty", "none", "t1", "t2"]
+        scripts = [list(s_) for s_ in itertools.product(acts, repeat=3)] if ctx.quick else [list(s_) for s_ in itertools.product(acts, repeat=4)]
+        for si, script in enumerate(scripts):
+            j += 1
+            if ctx.mine(j):
+                await run_oauth_rotation(ctx, mods, script, composite=bool(si % 2))
         conc = [(), ("bearer",), ("oauth_refresh",), ("key_query", "headers", "bearer"), ("oauth_refresh", "key_header"), ("key_cookie", "oauth_refresh", "headers")]
         if not ctx.quick:
             conc += list(itertools.permutations(PLUGINS, 2))
@@ -539,7 +598,9 @@ def run_shard(ctx: Ctx) -> None:
 def replay(ctx: Ctx, file: dict) -> None:
     mods = load()
     c = file["case"]
-    if c.get("context_manager"):
+    if c.get("oauth_rotation"):
+        asyncio.run(run_oauth_rotation(ctx, mods, c["script"], c["composite"]))
+    elif c.get("context_manager"):
         asyncio.run(run_context_manager(ctx, mods))
     elif c.get("concurrent"):
         asyncio.run(run_concurrent(ctx, mods, tuple(c["plugins"]), c["pattern"], c["shortcut"], c["n"], c["schedule"]))
